@@ -361,6 +361,19 @@ Definition l0_with_word (l : list N) (idx : N) (w sep : list N) : list N :=
     let r3 := if negb (is_nil b) && negb (ends_with r2 sep) && negb (starts_with b sep) then r2 ++ sep else r2 in
     r3 ++ b.
 
+(* IndentedBy: [pad] is put before the first character of every line that has one *)
+Fixpoint indent_fold (pad : list N) (seen : bool) (l acc : list N) : list N :=
+  match l with
+  | [] => acc
+  | c :: t => if (c =? 10) || (c =? 13) then indent_fold pad false t (acc ++ [c])
+              else if seen then indent_fold pad true t (acc ++ [c])
+              else indent_fold pad true t ((acc ++ pad) ++ [c])
+  end.
+Definition l0_indented (l : list N) (n ch : N) : list N :=
+  if (n =? 0) || (ch =? 0) then l
+  else let pad := repN ch n in
+       indent_fold pad false l (if (nthN 0 l =? 13) || (nthN 0 l =? 10) then pad else []).
+
 Definition l0_padded (l : list N) (minLen : N) (right : bool) (ch : N) : list N :=
   if (lenN l <? minLen) && negb (ch =? 0)
   then (if right then l ++ repN ch (minLen - lenN l) else repN ch (minLen - lenN l) ++ l)
